@@ -145,6 +145,70 @@ def commit_job(arg):
     return rep
 
 
+def fault_job(arg):
+    """One keep on a cold store with a transient failure injected before the n-th dbutils call, for every n; then the
+    same keep again without faults: it must return the value and leave the store as a fault-free keep does."""
+    ctype, tag, second_handle = arg
+    import dds
+    from dds.structures import DDSException
+    from vp.fakedbutils import FakeDbutils
+
+    rep = core.Report("C19")
+    dds.accept_module("checks")
+    expected = produce_a(tag)
+    path = "/flt/%s" % tag
+    # dry run: number of dbutils calls of a fault-free keep
+    with core.Scratch("vp_c19f_") as root:
+        dbu = FakeDbutils(root)
+        dds.set_store("dbfs", internal_dir="dbfs:/int", data_dir="dbfs:/data", dbutils=dbu, commit_type=ctype)
+        n0 = dbu.fs.nops
+        dds.keep(path, produce_a, tag)
+        m = dbu.fs.nops - n0
+    for n in range(m):
+        rep.evaluations += 1
+        case = {"fault": True, "commit_type": ctype, "tag": tag, "fail_before_call": n, "second_handle": second_handle}
+        with core.Scratch("vp_c19f_") as root:
+            dbu = FakeDbutils(root)
+            dds.set_store("dbfs", internal_dir="dbfs:/int", data_dir="dbfs:/data", dbutils=dbu, commit_type=ctype)
+            dbu.fs.fail_at = dbu.fs.nops + n
+            failed_call = None
+            try:
+                v = dds.keep(path, produce_a, tag)
+                # dds may legitimately absorb the failure of a probing call (e.g. reading a record that may not exist)
+                if not SM.values_equal(v, expected):
+                    rep.violate("commit_type=%r: keep with a transient failure before call %d returned %r" % (ctype, n, v), case, mechanism="keep-wrong-value-after-fault")
+                    continue
+                rep.count("faults_absorbed")
+            except BaseException as e:
+                rep.count("faults_propagated")
+                failed_call = dbu.fs.log[-1]
+            if second_handle:
+                dds.set_store("dbfs", internal_dir="dbfs:/int", data_dir="dbfs:/data", dbutils=FakeDbutils(root), commit_type=ctype)
+            what = "commit_type=%r, %s, transient failure before dbutils call %d (%s), then the same keep again" % (ctype, tag, n, (failed_call or ("absorbed",))[0])
+            try:
+                v = dds.keep(path, produce_a, tag)
+            except BaseException as e:
+                rep.violate("%s: raised %s: %s" % (what, type(e).__name__, str(e)[:150]), case, mechanism="retry-after-fault-raised:%s" % (failed_call or ("absorbed",))[0])
+                continue
+            rep.count("retries_after_fault")
+            if not SM.values_equal(v, expected):
+                rep.violate("%s: returned %r" % (what, v), case, mechanism="retry-after-fault-wrong-value")
+                continue
+            if ctype != "none":
+                try:
+                    lv = dds.load(path)
+                    if not SM.values_equal(lv, expected):
+                        rep.violate("%s: load gives %r" % (what, lv), case, mechanism="retry-after-fault-wrong-value")
+                except BaseException as e:
+                    rep.violate("%s: load raised %s: %s" % (what, type(e).__name__, str(e)[:120]), case, mechanism="retry-after-fault-load-raised")
+                if ctype == "full":
+                    obj = os.path.join(root, "dbfs", "data", path.lstrip("/"))
+                    if not os.path.exists(obj):
+                        rep.violate("%s: no copy under the data directory" % what, case, mechanism="full-copy-missing")
+            rep.nontriv(("fault", ctype, tag, n, second_handle))
+    return rep
+
+
 LEGACY = {"str": "dbfs.string", "bytes": "dbfs.bytes", "pickle": "dbfs.pickle"}
 
 
@@ -189,7 +253,7 @@ def run(tier, seed):
     rep.rule = (
         "commit types: the documented names %r in lower/upper/capitalised form plus the default (None); per store a sequence of keeps (value types %r, "
         "re-keeps of a path with changed code, nested paths) each followed by inspection of the fake dbutils' backing tree and loads of every path kept so far; "
-        "legacy: each value kind (str/bytes/pickle) stored, its .meta rewritten to dbfs.string/dbfs.bytes/dbfs.pickle, read by a new store object. "
+        "legacy: each value kind (str/bytes/pickle) stored, its .meta rewritten to dbfs.string/dbfs.bytes/dbfs.pickle, read by a new store object; faults: one keep with a transient failure injected before each dbutils call in turn, then the same keep again (same or new store object). "
         "distinct_nontrivial = distinct (commit type spelling, keep sequence) runs with >=2 kept paths + distinct (value, legacy ref) reads."
         % (DOCUMENTED, TAGS)
     )
@@ -214,8 +278,12 @@ def run(tier, seed):
                       ("none", "pickle"), ("int", "pickle"), ("nested", "pickle"), ("obj", "pickle")):
         jobs.append(("legacy", (tag, kind)))
 
+    for ct in ("full", "links_only", "none"):
+        for ti, tag in enumerate(("str_ascii", "bytes_plain", "nested", "frame0") if tier != "quick" else ("str_ascii", "nested", "frame0")):
+            jobs.append(("fault", (ct, tag, ti % 2 == 1)))
+
     def dispatch(j):
-        return {"commit": commit_job, "legacy": legacy_job}[j[0]](j[1])
+        return {"commit": commit_job, "legacy": legacy_job, "fault": fault_job}[j[0]](j[1])
 
     results = core.fork_map(dispatch, jobs, timeout=600)
     for j, r in zip(jobs, results):
@@ -233,6 +301,9 @@ def run(tier, seed):
 def replay(payload):
     rep = core.Report("C19")
     c = payload["case"]
+    if c.get("fault"):
+        rep.merge(fault_job((c["commit_type"], c["tag"], c["second_handle"])))
+        return rep
     if "seq" in c or "commit_type" in c:
         sp = c["commit_type"]
         ct = (sp or "full").lower()
